@@ -35,6 +35,10 @@ func raceColl() *column.Collection {
 	c.CreateColumn("s", column.ForString())
 	c.CreateColumn("e", column.ForEnum())
 	c.CreateColumn("f", column.ForBool())
+	c.CreateColumn("rec", column.ForRecord(func() *ctr { return new(ctr) }, column.WithMerge(func(v, d *ctr) *ctr {
+		v.N += d.N
+		return v
+	})))
 	c.CreateIndex("big", "a", func(r column.Reader) bool { return r.Int() > 10 })
 	c.CreateSortIndex("sorted", "s")
 	return c
@@ -49,6 +53,7 @@ func insertRows(c *column.Collection, n int) {
 				r.SetString("s", fmt.Sprint("v", i%7))
 				r.SetEnum("e", []string{"x", "y", "z"}[i%3])
 				r.SetBool("f", i%2 == 0)
+				r.SetRecord("rec", &ctr{N: int64(i)})
 				return nil
 			})
 		}
